@@ -53,12 +53,20 @@ func (s *State) get(comp string) string {
 	}
 	s.x.declare(sym, srt)
 	if !s.tainted {
+		s.x.symNa[sym] = s.x.entryNa
+	}
+	if !s.tainted {
 		s.x.entryComps[comp] = sym
 	}
 	return sym
 }
 
-func (s *State) set(comp, sym string) { s.m[comp] = sym }
+func (s *State) set(comp, sym string) {
+	s.m[comp] = sym
+	if _, ok := s.x.symNa[sym]; !ok {
+		s.x.symNa[sym] = s.na
+	}
+}
 
 // ---------------------------------------------------------------- values
 
@@ -125,6 +133,15 @@ type Obligation struct {
 	Vacuity  bool   // expected result is sat (reachability check)
 	Inlined  bool
 	ExtraCmd string // extra commands (declarations) local to this obligation
+	Block    int       // top-level basic block the obligation belongs to (-1: none)
+	Cases    []oblCase // if non-empty: one query per case (e.g. per return site); all must be unsat
+}
+
+type oblCase struct {
+	Idx   int
+	Guard string
+	Goal  string
+	Block int
 }
 
 type Exec struct {
@@ -151,6 +168,10 @@ type Exec struct {
 	topEnv     *Env
 	sweep      bool
 	pending    *pendingStore
+	topRets    []retInfo
+	cmdTag     []int
+	symNa      map[string]string // heap symbol -> allocation bound when it was created
+	curBlock   int
 }
 
 func (x *Exec) fresh(base string) string {
@@ -164,6 +185,7 @@ func (x *Exec) declare(sym, srt string) {
 	}
 	x.declared[sym] = true
 	x.cmds = append(x.cmds, "(declare-const "+sym+" "+srt+")")
+	x.cmdTag = append(x.cmdTag, -1)
 }
 
 func (x *Exec) freshConst(base, srt string) string {
@@ -177,19 +199,38 @@ func (x *Exec) assume(guard, fact string) {
 		return
 	}
 	if guard == "" || guard == "true" {
-		x.cmds = append(x.cmds, "(assert "+fact+")")
+		x.emit("(assert "+fact+")")
 	} else {
-		x.cmds = append(x.cmds, "(assert (=> "+guard+" "+fact+"))")
+		x.emit("(assert (=> "+guard+" "+fact+"))")
 	}
 }
 
 func (x *Exec) define(base, srt, term string) string {
 	s := x.freshConst(base, srt)
-	x.cmds = append(x.cmds, "(assert (= "+s+" "+term+"))")
+	x.emit("(assert (= "+s+" "+term+"))")
 	return s
 }
 
 func (x *Exec) note(s string) { x.notes[s] = true }
+
+// emit appends a command, tagged with the top-level basic block being
+// executed (used to slice obligations by control-flow relevance).
+func (x *Exec) emit(cmd string) {
+	x.cmds = append(x.cmds, cmd)
+	x.cmdTag = append(x.cmdTag, x.curBlock)
+}
+
+// markNamed tells the solver that term is a program-visible object of a
+// type for which the specification asks for unfolding (;@named).
+func (x *Exec) markNamed(term string, t types.Type) {
+	p, ok := t.Underlying().(*types.Pointer)
+	if !ok {
+		return
+	}
+	if pred, ok := x.eng.named[typeKey(p.Elem())]; ok {
+		x.emit("(assert ("+pred+" "+term+"))")
+	}
+}
 
 func (x *Exec) oblName(kind, anchor string) string {
 	base := kind + ":" + anchor
@@ -208,7 +249,7 @@ func (x *Exec) oblige(kind, anchor, guard, goal, desc string, pos token.Pos) {
 		x.assume(guard, goal)
 		return
 	}
-	o := &Obligation{Name: x.oblName(kind, anchor), Kind: kind, Func: x.fn.String(), Idx: len(x.cmds), Guard: guard, Goal: goal, Desc: desc, Tainted: x.curTaint, Inlined: len(x.inlineStk) > 1}
+	o := &Obligation{Name: x.oblName(kind, anchor), Kind: kind, Func: x.fn.String(), Idx: len(x.cmds), Guard: guard, Goal: goal, Desc: desc, Tainted: x.curTaint, Inlined: len(x.inlineStk) > 1, Block: x.curBlock}
 	if pos.IsValid() {
 		p := x.eng.prog.Fset.Position(pos)
 		o.Pos = fmt.Sprintf("%s:%d", p.Filename, p.Line)
@@ -222,6 +263,38 @@ func (x *Exec) oblige(kind, anchor, guard, goal, desc string, pos token.Pos) {
 	x.obls = append(x.obls, o)
 	// once checked, the fact may be assumed downstream
 	x.assume(guard, goal)
+}
+
+// obligeCases records one obligation made of several queries (one per
+// return site); afterwards every case may be assumed.
+func (x *Exec) obligeCases(kind, anchor string, cases []oblCase, desc string, pos token.Pos) {
+	var keep []oblCase
+	for _, c := range cases {
+		if c.Goal != "true" {
+			keep = append(keep, c)
+		}
+	}
+	if len(keep) == 0 {
+		return
+	}
+	for i := range keep {
+		keep[i].Idx = len(x.cmds)
+	}
+	o := &Obligation{Name: x.oblName(kind, anchor), Kind: kind, Func: x.fn.String(), Idx: len(x.cmds), Cases: keep, Desc: desc, Tainted: x.curTaint}
+	if pos.IsValid() {
+		p := x.eng.prog.Fset.Position(pos)
+		o.Pos = fmt.Sprintf("%s:%d", p.Filename, p.Line)
+	}
+	if x.ct != nil {
+		o.Props = x.ct.Props
+	}
+	if len(x.propsOver) > 0 {
+		o.Props = x.propsOver
+	}
+	x.obls = append(x.obls, o)
+	for _, c := range keep {
+		x.assume(c.Guard, c.Goal)
+	}
 }
 
 // regionRecord builds (and caches) the record term of a heap region.
@@ -238,7 +311,10 @@ func (x *Exec) regionRecord(st *State, region string) string {
 	if s, ok := x.regCache[key]; ok {
 		return s
 	}
-	s := x.define("reg"+region, "Reg"+region, "(mkReg"+region+" "+strings.Join(syms, " ")+")")
+	s := x.freshConst("reg"+region, "Reg"+region)
+	for i, acc := range x.eng.regionAcc[region] {
+		x.emit("(assert (= (" + acc + " " + s + ") " + syms[i] + "))")
+	}
 	x.regCache[key] = s
 	return s
 }
@@ -394,15 +470,23 @@ func (x *Exec) fieldSet(rec string, path []FieldStep, val string) string {
 func (x *Exec) load(fr *frame, addr sval, ptrT types.Type, st *State, reach string, pos token.Pos) sval {
 	elemT := ptrT.Underlying().(*types.Pointer).Elem()
 	var term string
+	bound := st.na
+	useSym := func(comp string) string {
+		sym := st.get(comp)
+		if b, ok := x.symNa[sym]; ok {
+			bound = b
+		}
+		return sym
+	}
 	if addr.loc != nil {
 		l := addr.loc
 		switch l.Kind {
 		case "field":
-			term = x.fieldGet("(select "+st.get(l.Comp)+" "+l.Obj+")", l.Path)
+			term = x.fieldGet("(select "+useSym(l.Comp)+" "+l.Obj+")", l.Path)
 		case "elem":
-			term = "(select (select " + st.get(l.Comp) + " " + l.Base + ") " + l.Idx + ")"
+			term = "(select (select " + useSym(l.Comp) + " " + l.Base + ") " + l.Idx + ")"
 		case "global":
-			term = st.get(l.Comp)
+			term = useSym(l.Comp)
 			if x.eng.nonNilComps[l.Comp] {
 				x.assume("", "(not (= "+term+" 0))")
 				x.note("package-level error sentinels assigned once in the package initialiser are non-nil")
@@ -420,9 +504,10 @@ func (x *Exec) load(fr *frame, addr sval, ptrT types.Type, st *State, reach stri
 		}
 	}
 	s := x.define("ld", x.so.sortOf(elemT), term)
-	for _, f := range x.so.typeFacts(s, elemT, st.na) {
+	for _, f := range x.so.typeFacts(s, elemT, bound) {
 		x.assume(reach, f)
 	}
+	x.markNamed(s, elemT)
 	sv := sval{t: s}
 	if _, isFn := elemT.Underlying().(*types.Signature); isFn {
 		key := x.addrKey(addr)
@@ -554,6 +639,35 @@ func (x *Exec) mergeStates(edges []edge) *State {
 		}
 		out.m[k] = x.define(k, x.so.comps[k], term)
 	}
+	// region records of the merged state equal the record of the taken edge
+	for region := range x.eng.regions {
+		used := false
+		for k := range x.regCache {
+			if strings.HasPrefix(k, region+":") {
+				used = true
+				break
+			}
+		}
+		if !used {
+			continue
+		}
+		ok := true
+		for _, c := range x.eng.regions[region] {
+			if _, known := x.so.comps[c]; !known {
+				ok = false
+			}
+		}
+		if !ok {
+			continue
+		}
+		mrec := x.regionRecord(out, region)
+		for _, e := range edges {
+			erec := x.regionRecord(e.st, region)
+			if erec != mrec {
+				x.emit("(assert (=> " + e.cond + " (= " + mrec + " " + erec + ")))")
+			}
+		}
+	}
 	// na
 	same := true
 	for _, e := range edges[1:] {
@@ -652,6 +766,7 @@ func analyzeCFG(fn *ssa.Function) *cfgInfo {
 // ---------------------------------------------------------------- function execution
 
 type retInfo struct {
+	block int
 	cond string
 	vals []sval
 	st   *State
@@ -673,6 +788,9 @@ func (x *Exec) execBody(fr *frame, st0 *State, reach0 string) ([]sval, *State, s
 	for _, b := range ci.order {
 		var reach string
 		var st *State
+		if fr.top {
+			x.curBlock = b.Index
+		}
 		if b == fn.Blocks[0] {
 			reach = reach0
 			st = st0.clone()
@@ -789,7 +907,7 @@ func (x *Exec) execBody(fr *frame, st0 *State, reach0 string) ([]sval, *State, s
 				for _, r := range t.Results {
 					vs = append(vs, x.val(fr, r, st))
 				}
-				rets = append(rets, retInfo{cond: reach, vals: vs, st: st})
+				rets = append(rets, retInfo{block: x.curBlock, cond: reach, vals: vs, st: st})
 			case *ssa.Panic:
 				if ct == nil || !ct.MayPanic {
 					x.oblige("safety", "panic", reach, "false", "explicit panic is unreachable", t.Pos())
@@ -799,6 +917,9 @@ func (x *Exec) execBody(fr *frame, st0 *State, reach0 string) ([]sval, *State, s
 				st = x.execInstr(fr, ins, st, reach)
 			}
 		}
+	}
+	if fr.top {
+		x.topRets = rets
 	}
 	if len(rets) == 0 {
 		return nil, st0, "false"
@@ -869,6 +990,7 @@ func (x *Exec) phiValue(fr *frame, phi *ssa.Phi, es []edge, st *State) sval {
 		term = "(ite " + pvs[i].cond + " " + pvs[i].v.t + " " + term + ")"
 	}
 	out := sval{t: x.define("phi_"+phi.Comment, x.so.sortOf(phi.Type()), term)}
+	x.markNamed(out.t, phi.Type())
 	for _, p := range pvs {
 		if p.v.loc != nil {
 			x.note("phi over interior pointers in " + fr.fn.String())
